@@ -329,3 +329,7 @@ package providers
 //@ func (p *AmazonCognitoProvider) ValidateSessionState(s *sessions.SessionState) bool
 //@   modifies clock
 //@   ensures [C09] valid_only_when_the_profile_call_succeeded: result ==> old(s.AccessToken) != "" && called(@GetUserProfile#1) && @GetUserProfile#1.1 == nil && arg(@GetUserProfile#1, 1) == old(s.AccessToken)
+
+// ---- C10 / C16: code redemption is never coalesced: each callback's code is put to the provider ---------------------
+//@ func (p *SingleFlightProvider) Redeem(redirectURL string, code string) (*sessions.SessionState, error)
+//@   ensures [C10 C16] redeems_this_code_itself: called(@Redeem#1) && arg(@Redeem#1, 0) == old(p.provider) && arg(@Redeem#1, 1) == redirectURL && arg(@Redeem#1, 2) == code && result.0 == @Redeem#1.0 && result.1 == @Redeem#1.1
